@@ -495,6 +495,20 @@ func c16Faults(c *Ctx) {
 			}
 			return ""
 		}},
+		{"dest-opens-but-write-fails", func(d string) []string {
+			// the destination can be opened but every write fails (a full disk): gen_x.go -> /dev/full
+			MustWrite(filepath.Join(d, "x.fo"), good)
+			os.Symlink("/dev/full", filepath.Join(d, "gen_x.go"))
+			return []string{"x.fo"}
+		}, func(d string, r RunResult) string {
+			if _, err := os.Stat("/dev/full"); err != nil {
+				return ""
+			}
+			if r.Exit == 0 {
+				return "exit 0 although writing gen_x.go failed (ENOSPC)"
+			}
+			return ""
+		}},
 		{"no-arguments", func(d string) []string { return nil }, func(d string, r RunResult) string {
 			if r.TimedOut {
 				return "hang without arguments"
